@@ -20,7 +20,7 @@ RULE = ('Systems of 1-4 molecules: protein chains of 1-6 residues built from cha
         'chain / residue name / residue number, nter / cter with and without chain, names ending in digits written with '
         '"#", some matching nothing, some matching in one molecule only, some with unknown targets. Part 2 runs the real '
         'RepairGraph on the annotated peptides. Non-trivial = >= 2 molecules and >= 2 specifications of which at least one '
-        'matches and one matches nothing (or matches in only one molecule). distinct = distinct (system, specifications).')
+        'matches and one matches nothing (or matches in only one molecule). distinct = distinct (system, specifications). Also: a second round of requests on copies of annotated molecules and on the repaired system (marks must be gained exactly once, by the named residues only); residue number 0.')
 ASSUMPTIONS = ['specifications the documented grammar cannot express unambiguously (chain or name containing "-", a name '
                'ending in digits without "#") are not generated',
                'an unmatched specification counts as reported when a WARNING on logger vermouth mentions its target and '
